@@ -8,6 +8,8 @@ CONSTANTS
   DirOf <- BothSides
   Kinds = {"call"}
   Faults = {"cut"}
+  TagMode = "fresh"
+  ResolveMode = "bytag"
   MaxPg = 0
 INVARIANTS
   Ordered NoCrossWire TagsUnique AnsweredWasDelivered StoppedIsClean ProxyHasOriginal Mirrors
